@@ -367,6 +367,8 @@ theorem inv_stepCall {s s' : State} (inv : Inv s) {t op i kind key exp val}
                 exact this
               · cases h
             · split at h
+              · cases h
+              split at h
               · rename_i hg2
                 obtain ⟨_, _, htk⟩ := hg2
                 cases h
@@ -1169,8 +1171,10 @@ theorem uniq_stepCall {s s' : State} (uq : OpsUniq s) {t op i kind key exp val}
                 · cases h; exact uniq_cons uq _ hfresh rfl
                 · cases h
               · split at h
-                · cases h; exact uniq_cons uq _ hfresh rfl
                 · cases h
+                · split at h
+                  · cases h; exact uniq_cons uq _ hfresh rfl
+                  · cases h
           · cases h
         · cases h; exact uniq_cons uq _ hfresh rfl
         · split at h
